@@ -292,7 +292,9 @@ def s_include(F, res):
     f = F.fn("<tx3_resolver::inputs::CanonicalQuery as std::convert::TryFrom<tx3_tir::model::v1beta0::InputQuery>>::try_from")
     IQ = "tx3_tir::model::v1beta0::InputQuery"
     read = set()
-    for g in with_closures(F, f):
+    from ..common import deep_bodies
+    # (with the crate's helpers inlined: `address_of(&query)`, `min_amount_of(&query)` .. read the fields for it)
+    for g in deep_bodies(F, f["path"]):
         for bi, si, s in mir.stmts(g):
             rv = s["rv"]
             pls = [rv.get("pl")] if rv["k"] in ("ref", "rawptr") else [mir.op_place(o) for o in mir.all_operands_of_rv(rv)]
